@@ -51,6 +51,6 @@ def mpi_leg(chk, key, replay=None):
 
 def legs(chk, key, big=False):
     ok = mpi_leg(chk, key)
-    if ok and big and chk.tier == "thorough":
+    if ok and big:
         ok = big_leg(chk, key)
     return ok
